@@ -164,7 +164,12 @@ func RunOp(t *zzsimrt.Task, op, path string, data []byte, budget int64) string {
 		return nil
 	})
 	if oc.Bad() {
-		return "ABORT " + oc.Class() + " " + oc.Msg
+		out = "ABORT " + oc.Class() + " " + oc.Msg
+	}
+	// the directory the simulated disk happens to live in is not part of the result
+	// (error texts of the os package quote the path)
+	if i := strings.LastIndexByte(path, '/'); i > 0 {
+		out = strings.ReplaceAll(out, path[:i+1], "<disk>/")
 	}
 	return out
 }
